@@ -159,6 +159,7 @@ func runC07Websocket(c *mon.Case) {
 		[]byte(`{"result":{"msg":123}}`), []byte("\x00\xff\xfe"), []byte(`{"result":{"msg":"AA=="}}{"result":{"msg":"AQ=="}}`),
 		wrap([]byte{2, 0, 0}), wrap([]byte{1, 255}), wrap([]byte{}), wrap([]byte{1}), wrap([]byte{3}), wrap([]byte{4, 200}), wrap([]byte{9, 9, 9}),
 		wrap([]byte{1, 20, 7, 7, 7}), wrap([]byte{6}), wrap([]byte{5}),
+		[]byte(`{"result":`), []byte(`{"error":`), []byte(`{"result":{`), []byte(`{"error":{"message":`),
 	}
 	for i := 0; i < 6; i++ {
 		b := make([]byte, rng.Intn(40))
